@@ -119,7 +119,8 @@ JsAccepted(slots, entries) ==
 \* replay: state is [len, contig, held (set of indices)]
 JsContigSet(c, held, s, n, maxi) ==
   IF c <= s + n /\ c >= s
-  THEN LET F[x \in (s + n)..(maxi + 1)] == IF x \in held /\ x <= maxi THEN F[x + 1] ELSE x IN F[s + n]
+  THEN IF s + n > maxi THEN s + n      \* (total on any logged input)
+       ELSE LET F[x \in (s + n)..(maxi + 1)] == IF x \in held /\ x <= maxi THEN F[x + 1] ELSE x IN F[s + n]
   ELSE c
 RECURSIVE JsReplay(_, _, _)
 JsReplay(st, es, maxi) ==
